@@ -157,6 +157,10 @@ def wrap(cache, cfg, f):
             ttl = scripted_ttl(ttl)
     if d == "early":
         return cache.early(ttl=ttl, early_ttl=inner, background=bool(cfg["bg"]), protected=False, **extra)(f)
+    if d in ("soft", "fail"):
+        # the application's customised defaults name the UNLISTED class: a decorator's explicit `exceptions=` replaces the
+        # defaults, it is not added to them (round 7, C14-19) - with the defaults merged in, an unlisted failure is served
+        cache.set_default_fail_exceptions(Unlisted)
     if d == "soft":
         return cache.soft(ttl=ttl, soft_ttl=inner, exceptions=(Listed,), protected=False, **extra)(f)
     if d == "fail":
